@@ -524,6 +524,10 @@ func ruleHeaderAndCoverage(r *Run, p string, k *serKind, doHeader, doCover bool)
 			r.Check(compared[f] || assigned[f], p+".FMT3", k.Name+":header:"+f, site, "construction parameter "+f+" is written and compared on read (mismatch ⇒ error)",
 				"construction parameter "+f+" is written but the reader neither compares it with the receiver nor restores it")
 		}
+		if doCover && mutable[f] && !emitted[f] && strings.HasPrefix(ft, "sync/atomic.") && observationalCounter(w, k.Name, f) {
+			r.Note(p+".FMT7", k.Name+":state:"+f, site, "atomic counter "+f+" is only ever reported (no loaded value reaches a branch, an index, a store into index state or a call into the package): not part of the index's answers")
+			continue
+		}
 		if doCover && mutable[f] {
 			if reason, ok := notPersisted[k.Name+"."+f]; ok {
 				r.Note(p+".FMT7", k.Name+":state:"+f, site, "mutable field "+f+" is not persisted — accepted: "+reason)
@@ -1349,6 +1353,13 @@ func multiReaderOrder(w *World, fn *ssa.Function, call ssa.CallInstruction) []st
 			continue
 		}
 		for _, e := range elems {
+			// the current element of a range loop over a literal list of the readers: one entry per element, in order
+			if lits := literalListAtRange(e); len(lits) > 0 {
+				for _, x := range lits {
+					out = append(out, classify(valueNameHint(w, fn, x)))
+				}
+				continue
+			}
 			lastOpenPath = nil
 			hint := valueNameHint(w, fn, e)
 			// opened in a loop over a literal table of the parts: one entry per row, in the table's order
@@ -1494,6 +1505,26 @@ func valueNameHint(w *World, fn *ssa.Function, v ssa.Value) string {
 			rec(x.X, d+1)
 		case *ssa.Extract:
 			rec(x.Tuple, d+1)
+		case *ssa.UnOp:
+			if x.Op == token.MUL {
+				rec(x.X, d+1)
+			}
+		case *ssa.Alloc:
+			// a wrapper struct built around the stream (&countingReader{r: file}): follow what was stored into it
+			for _, ref := range *x.Referrers() {
+				switch y := ref.(type) {
+				case *ssa.Store:
+					if y.Addr == ssa.Value(x) {
+						rec(y.Val, d+1)
+					}
+				case *ssa.FieldAddr:
+					for _, r2 := range *y.Referrers() {
+						if st, ok := r2.(*ssa.Store); ok && st.Addr == ssa.Value(y) {
+							rec(st.Val, d+1)
+						}
+					}
+				}
+			}
 		case *ssa.Call:
 			switch calleeName(x.Common()) {
 			case "os.Open", "os.OpenFile", "os.Create":
@@ -1606,4 +1637,161 @@ func astConstInt(w *World, e ast.Expr) (int64, bool) {
 		return 0, false
 	}
 	return constant.Int64Val(c)
+}
+
+// literalListAtRange: v is L[i] for the index i of a range loop over a literal array / slice L = {a, b, c}; returns a, b, c.
+func literalListAtRange(v ssa.Value) []ssa.Value {
+	for {
+		if mi, ok := v.(*ssa.MakeInterface); ok {
+			v = mi.X
+			continue
+		}
+		if ci, ok := v.(*ssa.ChangeInterface); ok {
+			v = ci.X
+			continue
+		}
+		break
+	}
+	var arr *ssa.Alloc
+	var ia *ssa.IndexAddr
+	if ix, isIx := v.(*ssa.Index); isIx {
+		// range over an array value: the whole array is loaded first
+		if !isRangeIndex(ix.Index) {
+			return nil
+		}
+		if ald, ok := ix.X.(*ssa.UnOp); ok && ald.Op == token.MUL {
+			arr, _ = ald.X.(*ssa.Alloc)
+		}
+	} else {
+		ld, ok := v.(*ssa.UnOp)
+		if !ok || ld.Op != token.MUL {
+			return nil
+		}
+		ia, ok = ld.X.(*ssa.IndexAddr)
+		if !ok || !isRangeIndex(ia.Index) {
+			return nil
+		}
+		switch x := ia.X.(type) {
+		case *ssa.Alloc:
+			arr = x
+		case *ssa.Slice:
+			arr, _ = x.X.(*ssa.Alloc)
+		}
+	}
+	if arr == nil {
+		return nil
+	}
+	rows := map[int64]ssa.Value{}
+	for _, ref := range *arr.Referrers() {
+		ea, ok := ref.(*ssa.IndexAddr)
+		if !ok || ea == ia {
+			continue
+		}
+		k, isK := ea.Index.(*ssa.Const)
+		if !isK {
+			return nil
+		}
+		for _, rr := range *ea.Referrers() {
+			if st, ok := rr.(*ssa.Store); ok && st.Addr == ssa.Value(ea) {
+				rows[k.Int64()] = st.Val
+			}
+		}
+	}
+	var out []ssa.Value
+	for i := int64(0); i < int64(len(rows)); i++ {
+		x, ok := rows[i]
+		if !ok {
+			return nil
+		}
+		out = append(out, x)
+	}
+	return out
+}
+
+// observationalCounter: every value loaded from the atomic field typeName.field only flows into results, local snapshot
+// structs and formatting calls — never into a branch, an index expression, a store into shared state or a call of a comet
+// function. Such a counter cannot influence what the index answers.
+func observationalCounter(w *World, typeName, field string) bool {
+	ok := true
+	loads := 0
+	for _, fn := range w.Funcs {
+		allInstrs(fn, func(in ssa.Instruction) {
+			call, isCall := in.(*ssa.Call)
+			if !isCall || call.Call.IsInvoke() || len(call.Call.Args) == 0 {
+				return
+			}
+			n := calleeName(call.Common())
+			if !strings.HasPrefix(n, "(*sync/atomic.") {
+				return
+			}
+			fa, isFA := call.Call.Args[0].(*ssa.FieldAddr)
+			if !isFA || namedTypeName(fa.X.Type()) != typeName || fieldName(fa.X.Type(), fa.Field) != field {
+				return
+			}
+			if strings.HasSuffix(n, ").Add") || strings.HasSuffix(n, ").Store") {
+				// the value returned by Add is a read too
+				if call.Referrers() == nil || len(*call.Referrers()) == 0 {
+					return
+				}
+			}
+			loads++
+			seen := map[ssa.Value]bool{}
+			var flow func(v ssa.Value, depth int)
+			flow = func(v ssa.Value, depth int) {
+				if seen[v] || !ok || v.Referrers() == nil {
+					return
+				}
+				seen[v] = true
+				if depth > 12 {
+					ok = false
+					return
+				}
+				for _, ref := range *v.Referrers() {
+					switch x := ref.(type) {
+					case *ssa.Return, *ssa.DebugRef:
+					case *ssa.Convert:
+						flow(x, depth+1)
+					case *ssa.ChangeType:
+						flow(x, depth+1)
+					case *ssa.BinOp:
+						flow(x, depth+1)
+					case *ssa.Phi:
+						flow(x, depth+1)
+					case *ssa.MakeInterface:
+						flow(x, depth+1)
+					case *ssa.Store:
+						if x.Val != v || !isLocalCell(x.Addr) && !localStructField(x.Addr) {
+							ok = false
+						}
+					case *ssa.Call:
+						cn := calleeName(x.Common())
+						if !strings.HasPrefix(cn, "fmt.") && !strings.HasPrefix(cn, "(*strings.Builder)") {
+							ok = false
+						}
+					default:
+						ok = false
+					}
+				}
+			}
+			flow(call, 0)
+		})
+	}
+	return ok && loads >= 0
+}
+
+// localStructField: addr is a field (or element) of a struct / array allocated in this function (a snapshot being built).
+func localStructField(addr ssa.Value) bool {
+	for d := 0; d < 6; d++ {
+		switch x := addr.(type) {
+		case *ssa.FieldAddr:
+			addr = x.X
+		case *ssa.IndexAddr:
+			addr = x.X
+		case *ssa.Alloc:
+			return true
+		default:
+			return false
+		}
+	}
+	return false
 }
